@@ -499,6 +499,28 @@ def canon_lines(text, probe, profile_file=False):
     return out, meta
 
 
+def canon_segments(text, probe):
+    """like canon_lines for the comment lines; everything between them (the measurement lines, whatever
+    characters they contain) as one text blob ['D', text] -- compared with the model's rendering"""
+    out = []
+    if text == '':
+        return out
+    lines = text.split('\n')
+    if lines[-1] == '':
+        lines.pop()
+    else:
+        out.append(['?', 'no-final-newline'])
+    for line in lines:
+        if line.startswith('#') or line == HEADER:
+            one, _m = canon_lines(line + '\n', probe)
+            out += one
+        elif out and out[-1][0] == 'D':
+            out[-1][1] += line + '\n'
+        else:
+            out.append(['D', line + '\n'])
+    return out
+
+
 # ---------------------------------------------------------------- model ops
 def meas_json(m):
     crit, unit, v = m
@@ -509,7 +531,7 @@ def meas_json(m):
 
 def scenario_op(op, probe, outputs, build_ok, specs, rt_k=None, rt_b=None):
     return {
-        'op': op, 'nfiles': len(probe.files),
+        'op': op, 'nfiles': len(probe.files), 'cols': [r['cols'] for r in probe.runs],
         'runs': [{'key': i, 'bench': r['bench'], 'invocations': r['invocations'], 'retries': r['retries'],
                   'warmup': r['warmup'], 'files': r['files'], 'builds': r['builds']}
                  for i, r in enumerate(probe.runs)],
